@@ -33,6 +33,16 @@ func (node *tagFilterNode) Execute(ctx *ExecutionContext, writer TemplateWriter)
 			if err != nil {
 				return err
 			}
+			// The body arrives escaped and the result is written as it is: text a filter takes from its
+			// parameter (default:name, add:name) must not enter it unescaped. Literals are the template's own text.
+			_, isLiteral := call.paramExpr.(*stringResolver)
+			_, isStringer := param.Interface().(fmt.Stringer)
+			if ctx.Autoescape && !isLiteral && !param.safe && (param.IsString() || isStringer) {
+				param, err = ApplyFilter("escape", param, nil)
+				if err != nil {
+					return err
+				}
+			}
 		} else {
 			param = AsValue(nil)
 		}
